@@ -138,9 +138,11 @@ func (root *Root) assureType(sample interface{}, obj *Object) error {
 	meta := reflect.TypeOf(sample)
 	obj.mu.Lock()
 	defer obj.mu.Unlock()
+	verifPoint("at_read", obj)
 	if obj.meta != nil && obj.meta != meta {
 		return fmt.Errorf("%w: %s is already registered as a %s", ErrDuplicate, obj.N, obj.meta.String())
 	}
+	verifPoint("at_write", obj)
 	obj.meta = meta
 
 	return nil
@@ -161,6 +163,7 @@ func (root *Root) getReflectType(meta reflect.Type) (obj Type) {
 		o, _ := t.(*Object)
 		if o != nil {
 			o.mu.Lock()
+			verifPoint("grt_read", o)
 			if o.meta == meta {
 				obj = o
 				o.mu.Unlock()
@@ -204,6 +207,7 @@ func (root *Root) regField(obj *Object, fd *FieldDef, goField string, args ...st
 	// Work on a copy taken under the lock. Requests resolved at the same time
 	// set the type again in assureType so it must not be read without the lock.
 	obj.mu.Lock()
+	verifPoint("rf_read", obj)
 	objMeta := obj.meta
 	obj.mu.Unlock()
 	meta := objMeta
@@ -214,6 +218,7 @@ func (root *Root) regField(obj *Object, fd *FieldDef, goField string, args ...st
 		if field, ok := meta.FieldByNameFunc(func(name string) bool {
 			return strings.EqualFold(name, goField)
 		}); ok {
+			verifPoint("rf_write", fd)
 			fd.goField = field.Name
 			if 0 < len(args) {
 				err = fmt.Errorf("%w: field %s on %s does not have argument", ErrMeta, goField, meta)
@@ -224,6 +229,7 @@ func (root *Root) regField(obj *Object, fd *FieldDef, goField string, args ...st
 	for i := objMeta.NumMethod() - 1; 0 <= i; i-- {
 		m := objMeta.Method(i)
 		if strings.EqualFold(m.Name, goField) {
+			verifPoint("rf_write", fd)
 			fd.method = &m.Func
 			break
 		}
